@@ -794,7 +794,11 @@ func (g *G) message(depth int) (util.Message, string, string, uint32) {
 	case 11:
 		port := g.r.Intn(1 << 20)
 		p := of.NewPortMod(port)
-		hwb := g.r.Bytes(6)
+		hwl := []int{6, 6, 6, 6, 0, 3, 8}[g.r.Intn(7)] // the address slot is 6 bytes whatever the slice holds
+		if g.exact {
+			hwl = 6 // a round trip gives the slot back
+		}
+		hwb := g.r.Bytes(hwl)
 		p.HWAddr = hwb
 		p.Config, p.Mask, p.Advertise = uint32(g.r.Bits(32)), uint32(g.r.Bits(32)), uint32(g.r.Bits(32))
 		return p, fmt.Sprintf("(MPortMod %d %s %d %d %d)", port, bterm(hwb), p.Config, p.Mask, p.Advertise), "port-mod", p.Xid
